@@ -285,6 +285,12 @@ func genTemplateProgram(t *rapid.T, allowErr bool) *tplProg {
 			w("u%[1]d := text%[1]d.to_upper(in1) + text%[1]d.repeat(\"ab\", %[2]d)\n", b, rapid.IntRange(0, 4).Draw(t, "tplRep"))
 			w("x%[1]d := math%[1]d.abs(-2.5) + math%[1]d.pow(2.0, 3.0)\ny%[1]d := text%[1]d.split(\"a,b,c\", \",\")\nz%[1]d := text%[1]d.re_match(\"^h\", in1)\n", b)
 			w("j%[1]d := text%[1]d.join(y%[1]d, in1)\n", b)
+			if rapid.IntRange(0, 1).Draw(t, "tplRand") == 0 {
+				// process-wide state behind a stdlib module: every clone draws
+				// from the same generator (values are not compared, only used)
+				w("rand%[1]d := import(\"rand\")\nrz%[1]d := rand%[1]d.intn(10) * 0 + rand%[1]d.int() * 0\nrf%[1]d := rand%[1]d.float() < 2.0\nrp%[1]d := len(rand%[1]d.perm(4))\n", b)
+				w("for i%[1]d := 0; i%[1]d < %[2]d; i%[1]d++ { rz%[1]d += rand%[1]d.intn(5) * 0 }\n", b, rapid.IntRange(1, 40).Draw(t, "tplRandLoops"))
+			}
 			if useEnum {
 				tp.multiFile = true
 				w("enum%[1]d := import(\"enum\")\nw%[1]d := enum%[1]d.map(in2, func(k, v) { return [k, v, in0] })\ne%[1]d := enum%[1]d.any(in2, func(k, v) { return v == in0 })\n", b)
